@@ -2,12 +2,13 @@
    system.  Definitions only. *)
 From Coq Require Import List ZArith Bool.
 Import ListNotations.
-From LC Require Import Base Tree Fp Lookup Api ApiStep Script ScanAction Tokens Lexer Parser Reader Writer FloatDec WriteFile.
+From LC Require Import Base Tree Fp Lookup Api ApiStep Script ScanAction Tokens Lexer Parser Reader Writer FloatDec WriteFile Locale.
 From LC.gen Require Import Consts.
 Local Open Scope Z_scope.
 
-Record world := mkW_ { w_cfg : cfg; w_fs : fs; w_dev : wdev }.
-Definition mkW (c : cfg) (f : fs) : world := mkW_ c f dev_ok.
+Record world := mkW_ { w_cfg : cfg; w_fs : fs; w_dev : wdev; w_loc : lstate }.
+Definition loc0 : lstate := mkLoc (mkLobj 0 46 [67]) None 100 [].
+Definition mkW (c : cfg) (f : fs) : world := mkW_ c f dev_ok loc0.
 
 Definition atof : bytes -> Z := strtod_bits.
 Definition fmt_double (b prec : Z) (sci : bool) : bytes := format_double b prec sci FBUF_SIZE.
@@ -72,6 +73,9 @@ Definition show_token (t : ltoken) : bytes :=
    end) ++ [32] ++ show_dec (lt_line t).
 
 Definition w_wdev := [119;100;101;118].
+Definition w_locale := [108;111;99;97;108;101].
+Definition w_global := [103;108;111;98;97;108].
+Definition w_locq := [108;111;99;113].
 
 (* does the directory part of [path] exist in the virtual file system?  (a directory entry, or the
    prefix of some stored file) *)
@@ -96,7 +100,8 @@ Definition dir_exists (f : fs) (path : bytes) : bool :=
 
 Definition run_line (w : world) (ln : bytes) : world * list bytes * bool :=
   let c := w_cfg w in
-  let mkW := fun c' f' => mkW_ c' f' (w_dev w) in
+  let mkW := fun c' f' => mkW_ c' f' (w_dev w) (w_loc w) in
+  let mkWl := fun c' f' l' => mkW_ c' f' (w_dev w) l' in
   let ws := words ln in
   let api := fun _ : unit =>
     match parse_aop ws with
@@ -107,19 +112,26 @@ Definition run_line (w : world) (ln : bytes) : world * list bytes * bool :=
   | [cmd] =>
       if is_w cmd w_dump then (w, dump_cfg c, false)
       else if is_w cmd w_write then
-        (w, [[82;32] ++ show_ret (RStr (Some (config_write fmt_double c)))], false)
+        let '(t, l') := with_locale true (w_loc w) (fun radix => config_write (fmt_radix fmt_double radix) c) in
+        (mkWl c (w_fs w) l', [[82;32] ++ show_ret (RStr (Some t))], false)
+      else if is_w cmd w_locq then
+        (w, [[82;32;108;111;99;32] ++ show_hs (Some (lo_name (ls_global (w_loc w)))) ++ [32] ++
+             (match ls_thread (w_loc w) with Some l => show_hs (Some (lo_name l)) | None => [45] end) ++ [32] ++
+             show_dec (eff_radix (w_loc w))], false)
       else api tt
   | [cmd; a] =>
-      if is_w cmd w_case then (mkW_ cfg_init [] dev_ok, [[67; 32] ++ a], false)
+      if is_w cmd w_case then (mkW_ cfg_init [] dev_ok loc0, [[67; 32] ++ a], false)
       else if is_w cmd w_reads || is_w cmd w_readst then
-        let r := config_read atof (w_fs w) c None (hs_or_empty (parse_hs a)) in
-        (mkW (rd_cfg r) (w_fs w), show_rd r, is_exit r)
+        let '(r, l') := with_locale true (w_loc w)
+                          (fun radix => config_read (atof_radix atof radix) (w_fs w) c None (hs_or_empty (parse_hs a))) in
+        (mkWl (rd_cfg r) (w_fs w) l', show_rd r, is_exit r)
       else if is_w cmd w_readf then
-        let r := config_read_file atof (w_fs w) c (hs_or_empty (parse_hs a)) in
-        (mkW (rd_cfg r) (w_fs w), show_rd r, is_exit r)
+        let '(r, l') := with_locale true (w_loc w)
+                          (fun radix => config_read_file (atof_radix atof radix) (w_fs w) c (hs_or_empty (parse_hs a))) in
+        (mkWl (rd_cfg r) (w_fs w) l', show_rd r, is_exit r)
       else if is_w cmd w_writef then
         let path := hs_or_empty (parse_hs a) in
-        let text := config_write fmt_double c in
+        let '(text, l') := with_locale true (w_loc w) (fun radix => config_write (fmt_radix fmt_double radix) c) in
         let d := match fs_lookup (w_fs w) path with
                  | Some FDir => mkDev (dv_cap (w_dev w)) (dv_fsync_fails (w_dev w)) (dv_close_fails (w_dev w)) true
                  | _ => if dir_exists (w_fs w) path then w_dev w
@@ -129,7 +141,7 @@ Definition run_line (w : world) (ln : bytes) : world * list bytes * bool :=
         let fs' := match wf_content r with
                    | Some t => fs_put (w_fs w) path (FFile t)
                    | None => w_fs w end in
-        (mkW (set_err c (wf_err r)) fs', [[82;32;105; (if wf_ok r then 49 else 48)]], false)
+        (mkWl (set_err c (wf_err r)) fs' l', [[82;32;105; (if wf_ok r then 49 else 48)]], false)
       else if is_w cmd w_lex then
         let '(toks, stop) := lex_top atof (w_fs w) c None (hs_or_empty (parse_hs a)) in
         (w, map show_token toks ++
@@ -138,7 +150,20 @@ Definition run_line (w : world) (ln : bytes) : world * list bytes * bool :=
              | StopFatal _ => [82;32;102;97;116;97;108] | StopStuck => [82;32;115;116;117;99;107] end], false)
       else api tt
   | [cmd; sub; p] =>
-      if is_w cmd w_fs_ then
+      if is_w cmd w_locale then
+        let l := w_loc w in
+        let radix_of := fun nm : bytes => match nm with 120 :: _ => 44 | _ => 46 end in      (* "xx_XX.utf8": comma *)
+        if is_w sub w_global then
+          let nm := hs_or_empty (parse_hs p) in
+          (mkWl c (w_fs w) (mkLoc (mkLobj 0 (radix_of nm) nm) (ls_thread l) (ls_next l) (ls_freed l)),
+           [[82;32;117;110;105;116]], false)
+        else
+          match parse_hs p with
+          | Some nm => (mkWl c (w_fs w) (mkLoc (ls_global l) (Some (mkLobj (ls_next l) (radix_of nm) nm))
+                                              (ls_next l + 1) (ls_freed l)), [[82;32;117;110;105;116]], false)
+          | None => (mkWl c (w_fs w) (mkLoc (ls_global l) None (ls_next l) (ls_freed l)), [[82;32;117;110;105;116]], false)
+          end
+      else if is_w cmd w_fs_ then
         let path := hs_or_empty (parse_hs p) in
         if is_w sub w_dir then (mkW c (fs_put (w_fs w) path FDir), [[82;32;117;110;105;116]], false)
         else if is_w sub w_rm then (mkW c (fs_remove (w_fs w) path), [[82;32;117;110;105;116]], false)
@@ -150,7 +175,8 @@ Definition run_line (w : world) (ln : bytes) : world * list bytes * bool :=
   | [cmd; a1; a2; a3; a4] =>
       if is_w cmd w_wdev then
         (mkW_ c (w_fs w) (mkDev (if parse_num a1 <? 0 then None else Some (parse_num a1))
-                                (negb (parse_num a2 =? 0)) (negb (parse_num a3 =? 0)) (negb (parse_num a4 =? 0))),
+                                (negb (parse_num a2 =? 0)) (negb (parse_num a3 =? 0)) (negb (parse_num a4 =? 0)))
+              (w_loc w),
          [[82;32;117;110;105;116]], false)
       else api tt
   | [cmd; sub; p; content] =>
